@@ -5,6 +5,7 @@ import (
 
 	"github.com/jdillenkofer/pithos/verifharness/dump"
 	"github.com/jdillenkofer/pithos/verifharness/ev"
+	"github.com/jdillenkofer/pithos/verifharness/gen"
 	"github.com/jdillenkofer/pithos/verifharness/prog"
 	"github.com/jdillenkofer/pithos/verifharness/run"
 	"github.com/jdillenkofer/pithos/verifharness/stacks"
@@ -34,9 +35,60 @@ func genCfg(stack string, thorough bool) prog.GenConfig {
 	return cfg
 }
 
-func gen(t *rapid.T, env *ev.Env) run.ProgCase {
+func genCase(t *rapid.T, env *ev.Env) run.ProgCase {
 	stack := rapid.SampledFrom(allStacks).Draw(t, "stack")
-	return run.ProgCase{Stack: stack, Ops: genCfg(stack, env.Thorough()).Gen(t)}
+	c := run.ProgCase{Stack: stack, Ops: genCfg(stack, env.Thorough()).Gen(t)}
+	var frag []prog.Op
+	switch rapid.IntRange(0, 5).Draw(t, "fragment") {
+	case 1:
+		// part-aligned ranged part copies from a two-part source: ranges that are a whole part, and ranges that are
+		// only as long as another part (seeded defect S-C01-3: "wholly covered part" found at a stale offset)
+		sizes := []int{3, 5, 700, 1024, 3000}
+		ai := rapid.IntRange(0, len(sizes)-1).Draw(t, "fragA")
+		bi := (ai + rapid.IntRange(1, len(sizes)-1).Draw(t, "fragB")) % len(sizes)
+		a, b := int64(sizes[ai]), int64(sizes[bi])
+		frag = []prog.Op{
+			{Kind: prog.OpPut, B: 0, K: 0, Body: &gen.BodySpec{Kind: "rand", Len: int(a), Seed: 31}},
+			{Kind: prog.OpAppend, B: 0, K: 0, Body: &gen.BodySpec{Kind: "rand", Len: int(b), Seed: 32}},
+			{Kind: prog.OpMpuCreate, B: 0, K: 1},
+			{Kind: prog.OpMpuPartCopy, Upload: prog.LastUpload, PartNo: 1, SB: 0, SK: 0, Range: &[2]int64{0, b}},
+			{Kind: prog.OpMpuPartCopy, Upload: prog.LastUpload, PartNo: 2, SB: 0, SK: 0, Range: &[2]int64{a, a + b}},
+			{Kind: prog.OpMpuPartCopy, Upload: prog.LastUpload, PartNo: 3, SB: 0, SK: 0, Range: &[2]int64{0, a}},
+			{Kind: prog.OpMpuPartCopy, Upload: prog.LastUpload, PartNo: 4, SB: 0, SK: 0, Range: &[2]int64{b, b + a}},
+			{Kind: prog.OpMpuComplete, Upload: prog.LastUpload, Manifest: "ok"},
+		}
+	case 2:
+		// an object made of two identical chunks copied to other keys (on stacks with named stores: into classes
+		// that live in another store) (seeded defect S-C01-4: cleanup of a "stale" dedup entry that was written
+		// a moment ago in the same transaction)
+		body := &gen.BodySpec{Kind: "rand", Len: rapid.SampledFrom([]int{5, 700, 2048}).Draw(t, "fragLen"), Seed: 33}
+		var c1, c2 *string
+		if stack == "N1" || stack == "N2" {
+			x, y := "GLACIER", "STANDARD_IA"
+			c1, c2 = &x, &y
+		}
+		build := []prog.Op{{Kind: prog.OpPut, B: 0, K: 0, Body: body}, {Kind: prog.OpAppend, B: 0, K: 0, Body: body}}
+		if rapid.Bool().Draw(t, "fragMpu") {
+			build = []prog.Op{{Kind: prog.OpMpuCreate, B: 0, K: 0},
+				{Kind: prog.OpMpuPart, Upload: prog.LastUpload, PartNo: 1, Body: body},
+				{Kind: prog.OpMpuPart, Upload: prog.LastUpload, PartNo: 2, Body: body},
+				{Kind: prog.OpMpuComplete, Upload: prog.LastUpload, Manifest: "ok"}}
+		}
+		frag = append(build,
+			prog.Op{Kind: prog.OpCopy, B: 0, K: 2, SB: 0, SK: 0, Class: c1},
+			prog.Op{Kind: prog.OpCopy, B: 1, K: 3, SB: 0, SK: 0, Class: c2},
+			prog.Op{Kind: prog.OpGC},
+			prog.Op{Kind: prog.OpDelete, B: 0, K: 0},
+			prog.Op{Kind: prog.OpGC},
+		)
+	}
+	if len(frag) > 0 {
+		pos := rapid.IntRange(min(2, len(c.Ops)), len(c.Ops)).Draw(t, "fragPos")
+		ops := append([]prog.Op{}, c.Ops[:pos]...)
+		ops = append(ops, frag...)
+		c.Ops = append(ops, c.Ops[pos:]...)
+	}
+	return c
 }
 
 func runCase(env *ev.Env, c run.ProgCase) ev.Outcome {
@@ -68,7 +120,7 @@ func TestC01(t *testing.T) {
 		Rule: "programs of 5-40 generated ops over 2 buckets x 4 keys on a drawn part-store stack; non-trivial = at least one successful overwrite or delete of a key " +
 			"(every mutation is followed by a read-back of all keys) and at least one successful copy, append or multipart complete; distinct = distinct case JSON",
 		Assumptions: []string{"reference model of DESIGN.md 2.3.1 is the oracle; SQLite metadata only"},
-		Gen:         gen,
+		Gen:         genCase,
 		Run:         runCase,
 	})
 }
